@@ -77,6 +77,7 @@ func loadContracts(P *Program, trusted []string, overlay map[string][]byte) (*Co
 	cs := newContractSet()
 	cs.Ghosts["held"] = &GhostDecl{Name: "held", Type: "map[ptr]bool", Src: "builtin"}
 	cs.Ghosts["closed"] = &GhostDecl{Name: "closed", Type: "map[ptr]bool", Src: "builtin"}
+	cs.Ghosts["select"] = &GhostDecl{Name: "select", Type: "mathint", Src: "builtin"}
 	var files []string
 	tdir := filepath.Join(verifRoot, "contracts", "trusted")
 	if len(trusted) == 0 {
@@ -198,7 +199,7 @@ func runUnits(ps *PropSpec, opts Options, overlay map[string][]byte) *runOutput 
 				out.EngineErrs = append(out.EngineErrs, fmt.Sprintf("contract %s (%s:%d) names a function that does not exist in the loaded packages", k, fc.File, fc.Line))
 				continue
 			}
-			results = append(results, V.verifyFunc(fn, fc))
+			results = append(results, V.verifyWithCandidates(fn, fc))
 		}
 		for _, sv := range V.structuralGlobalStores() {
 			out.EngineErrs = append(out.EngineErrs, "structural: "+sv)
